@@ -601,6 +601,41 @@ func c19RunA(c *core.C, shard int) {
 	st.counters["provider_tokens_attached"] += attached
 	st.counters["provider_rejected"] += rejected
 
+	// Where the statement leaves the grammar open (a ':' inside a token, a host keyed twice) either answer is
+	// accepted — but one answer per class: accepting some spellings of a class and rejecting others means the
+	// validation looks at only part of the string.
+	if shard == nShards {
+		panels := map[string][][]string{
+			"colon-in-keyed-token":    {{":", "t1", "@", "H1"}, {"t1", ":", "@", "H1"}, {"t1", ":", "t2", "@", "H1"}, {":", "@", "H1"}, {"t2", "@", "H2", ",", ":", "t1", "@", "H1"}, {"t2", "@", "H2", ",", "t1", ":", "@", "H1"}},
+			"colon-in-hostless-token": {{":", "t1"}, {"t1", ":"}, {"t1", ":", "t2"}, {":"}},
+			"host-keyed-twice":        {{"t1", "@", "H1", ",", "t2", "@", "H1"}, {"t1", "@", "H1", ",", "t1", "@", "H1"}, {"t1", "@", "H2", ",", "t2", "@", "H3", ",", "t1", "@", "H2"}},
+		}
+		for _, reason := range []string{"colon-in-keyed-token", "colon-in-hostless-token", "host-keyed-twice"} {
+			var accepted, rejected []string
+			for _, l := range panels[reason] {
+				str := ""
+				for _, n := range l {
+					str += w.symVal(n)
+				}
+				if cfg := parser.Parse(str); cfg.Kind != model.TokCorner || cfg.Reason != reason {
+					continue // the model files this spelling elsewhere
+				}
+				envc.token = str
+				if _, err := bufconnect.NewTokenProviderFromContainer(envc); err != nil {
+					rejected = append(rejected, strings.Join(l, " "))
+				} else {
+					accepted = append(accepted, strings.Join(l, " "))
+				}
+				st.evals++
+			}
+			st.counters["corner_panels_checked"]++
+			if len(accepted) > 0 && len(rejected) > 0 {
+				c.Violation("corner-class-not-uniform", "reason="+reason,
+					fmt.Sprintf("BUF_TOKEN strings of one class (%s) are treated differently: accepted %q, rejected %q — the validation covers only part of the string", reason, accepted, rejected), nil)
+			}
+		}
+	}
+
 	// wire boundary for one representative of every class found in this shard
 	home := c19Home(c)
 	defer os.RemoveAll(home)
